@@ -456,5 +456,28 @@ func genG07(repo string, w *Out) error {
 		}
 	}
 	w.DefBool("insecure_only_under_flag", under && sites == 1)
+	// the root pool of a client configuration is built for that configuration alone: a fresh copy of the
+	// system pool per call, the configured CA files appended to it, nothing shared at package level
+	lr, err := lf.Func("TLSClientConfig.loadRootCAs")
+	if err != nil {
+		return err
+	}
+	lsrc := strings.Join(g07Stmts(lf, lr.Body.List), " ; ")
+	freshPool := strings.Contains(lsrc, "rootCAs, err := x509.SystemCertPool()") && strings.Contains(lsrc, "rootCAs.AppendCertsFromPEM(b)") &&
+		strings.HasSuffix(lsrc, "tlsCfg.RootCAs = rootCAs ; return nil")
+	pkgPools := 0
+	for _, d := range lf.AST.Decls {
+		gd, ok := d.(*ast.GenDecl)
+		if !ok || gd.Tok != token.VAR {
+			continue
+		}
+		if strings.Contains(lf.Src(gd), "CertPool") {
+			pkgPools++
+		}
+	}
+	if !freshPool && pkgPools == 0 && !strings.Contains(lsrc, ".Clone()") {
+		return fmt.Errorf("loadRootCAs: body %q is not a shape the model knows", lsrc)
+	}
+	w.DefBool("root_pool_fresh_per_config", (freshPool || strings.Contains(lsrc, ".Clone()")) && pkgPools == 0)
 	return nil
 }
